@@ -99,6 +99,21 @@ func NTLMAuthenticate(user, domain, workstation string, nt, lm, sessionBaseKey [
 	if c, err := rc4.NewCipher(sessionBaseKey); err == nil {
 		c.XORKeyStream(encKey, random)
 	}
+	return NTLMAuthenticateRaw(user, domain, workstation, nt, lm, flags, encKey)
+}
+
+// NTLMOddFlags are negotiate-flag combinations a client may legally put into an authenticate
+// message that differ from the usual set (index 0: key exchange without a key-length flag).
+var NTLMOddFlags = []uint32{
+	ntlmUnicode | ntlmNTLM | ntlmESS | ntlmKeyExch | ntlmTargetInf,
+	ntlmUnicode | ntlmNTLM | ntlmESS | ntlmTargetInf,
+	ntlmUnicode | ntlmNTLM | ntlmESS | ntlmKeyExch | ntlm56 | ntlmSign,
+	ntlmUnicode | ntlmNTLM | ntlmAlways | ntlm128,
+}
+
+// NTLMAuthenticateRaw builds an authenticate message with the given flags and encrypted
+// random session key field (which may be empty).
+func NTLMAuthenticateRaw(user, domain, workstation string, nt, lm []byte, flags uint32, encKey []byte) []byte {
 	fields := [][]byte{lm, nt, UTF16LE(domain), UTF16LE(user), UTF16LE(workstation), encKey}
 	const hdr = 8 + 4 + 6*8 + 4 + 8 + 16
 	b := []byte(ntlmSig)
